@@ -1,6 +1,8 @@
 package props
 
 import (
+	"time"
+
 	"encoding/pem"
 	"errors"
 	"fmt"
@@ -13,11 +15,12 @@ import (
 )
 
 type crlPlan struct {
-	signer   string // "correct", "other-ca", "foreign-key", "wrong-name"
-	outcome  string // "ok", "error", "empty", "garbage", "pem", "other-crl"
-	revoked  [][]byte
-	contains map[string]bool // which of leaf/int/tcb/qe serials are listed
-	header   string          // pck only: "ok", "missing", "empty", "one-cert", "pki-b"
+	signer    string // "correct", "other-ca", "foreign-key", "wrong-name"
+	outcome   string // "ok", "error", "empty", "garbage", "pem", "other-crl"
+	revoked   [][]byte
+	revokedAt []time.Time
+	contains  map[string]bool // which of leaf/int/tcb/qe serials are listed
+	header    string          // pck only: "ok", "missing", "empty", "one-cert", "pki-b"
 }
 
 func nearMisses(serial []byte, s *gen.Stream) [][]byte {
@@ -102,13 +105,39 @@ func TestC05(t *testing.T) {
 		if rapid.Bool().Draw(t, "bigserial") {
 			w.LeafSpec.Serial = append([]byte{0x7f}, s.Bytes(19)...)
 		}
+		if rapid.IntRange(0, 3).Draw(t, "defaultTimeSet") == 0 {
+			w.UseRealNow() // Options.Now == nil, as RootOfTrustToOptions / the check tool use it
+			gen.Class("default-time-set")
+		}
 		w.Build()
+		// an entry's revocation DATE is informational: a listed serial is revoked whatever its date
+		datesFor := func(n int) []time.Time {
+			out := make([]time.Time, n)
+			base := w.Times.PckCrl
+			for i := range out {
+				switch s.Intn(6) {
+				case 0:
+					out[i] = base.Add(time.Second)
+				case 1:
+					out[i] = base.Add(48 * time.Hour)
+				case 2:
+					out[i] = base.AddDate(5, 0, 0)
+				case 3:
+					out[i] = base.Add(-time.Second)
+				case 4:
+					out[i] = base.AddDate(-3, 0, 0)
+				}
+			}
+			return out
+		}
 		targets := map[string][]byte{"leaf": w.Leaf.X.SerialNumber.Bytes(), "int": p.Int.X.SerialNumber.Bytes(), "tcb": p.TcbSig.X.SerialNumber.Bytes(), "qe": p.QeSig.X.SerialNumber.Bytes()}
 
 		pck := crlPlan{signer: rapid.SampledFrom(signers).Draw(t, "pckSigner"), outcome: rapid.SampledFrom(outcomes).Draw(t, "pckOutcome"), header: rapid.SampledFrom(ok7("ok", "missing", "empty", "one-cert", "pki-b", "forged-matching-foreign-key", "forged-matching-foreign-key")).Draw(t, "pckHeader")}
 		pck.revoked, pck.contains = drawRevoked(t, "pck", targets, s)
+		pck.revokedAt = datesFor(len(pck.revoked))
 		root := crlPlan{signer: rapid.SampledFrom(signers).Draw(t, "rootSigner")}
 		root.revoked, root.contains = drawRevoked(t, "root", targets, s)
+		root.revokedAt = datesFor(len(root.revoked))
 
 		foreign := gen.DeriveKey("c05/foreign")
 		mk := func(kind string, pl crlPlan) []byte {
@@ -117,7 +146,7 @@ func TestC05(t *testing.T) {
 			if kind == "root" {
 				issuerCert, key, otherCert, otherKey = p.Root, p.Root.Key, p.Int, p.Int.Key
 			}
-			spec := gen.CRLSpec{Revoked: pl.revoked}
+			spec := gen.CRLSpec{Revoked: pl.revoked, RevokedAt: pl.revokedAt}
 			switch pl.signer {
 			case "other-ca":
 				return gen.MakeCRL(issuerCert, otherKey, spec) // right name, signed by the other CA's key
